@@ -51,7 +51,7 @@ type c07Prog struct {
 }
 
 var c07Muts = []string{
-	"payload-flip", "payload-insert", "payload-delete", "payload-set",
+	"payload-flip", "payload-insert", "payload-delete", "payload-set", "payload-ws-replace", "payload-ws-insert", "payload-ws-delete", "payload-append-nl",
 	"logid",
 	"next-drop", "next-add", "next-swap", "next-replace", "next-move-to-refs",
 	"refs-drop", "refs-add", "refs-swap", "refs-replace",
@@ -66,6 +66,11 @@ func genPayload() *rapid.Generator[[]byte] {
 		rapid.SliceOfN(rapid.Byte(), 0, 24),
 		rapid.Map(rapid.StringN(0, 12, -1), func(s string) []byte { return []byte(s) }),
 		rapid.SampledFrom([][]byte{{}, {0}, {0xff}, {0xff, 0x01}, {0xc3, 0x28}, []byte("hello"), {0xe2, 0x82, 0xac}, {0xed, 0xa0, 0x80}, []byte("\"\\\n")}),
+		// payloads that are documents themselves (what stores on top of the log write), with insignificant whitespace
+		rapid.SampledFrom([][]byte{
+			[]byte(`{"op":"PUT","key":"balance", "value":"100 coins"}`), []byte("[1, 2,\t3 ]"), []byte("{ }"), []byte(`{"a": {"b": [true, null]}}` + "\n"),
+			[]byte(" 12 "), []byte(`"quoted string"`), []byte("null"), []byte("<a b='c'> x </a>"), []byte("a: 1\nb:  2\n"), []byte("1e3"), []byte("0x10"), []byte("true "),
+		}),
 	)
 }
 
@@ -210,6 +215,34 @@ func runC07(tb ev.TB, p c07Prog) ev.Result {
 		}
 		i := p.Arg % len(p.Payload)
 		m.SetPayload(append(append([]byte(nil), p.Payload[:i]...), p.Payload[i+1:]...))
+	case "payload-ws-replace", "payload-ws-insert", "payload-ws-delete":
+		// whitespace that a parser of the payload's own format would not care about
+		var at []int
+		for i, b := range p.Payload {
+			if b == ' ' || b == '\t' || b == '\n' || b == '\r' {
+				at = append(at, i)
+			}
+		}
+		if len(at) == 0 {
+			return skip("no-whitespace")
+		}
+		i := at[p.Arg%len(at)]
+		np := append([]byte(nil), p.Payload...)
+		switch p.Mut {
+		case "payload-ws-replace":
+			nb := []byte{' ', '\t', '\n', '\r'}[p.Arg2%4]
+			if nb == np[i] {
+				nb = []byte{' ', '\t', '\n', '\r'}[(p.Arg2+1)%4]
+			}
+			np[i] = nb
+		case "payload-ws-insert":
+			np = append(append(append([]byte(nil), np[:i]...), ' '), np[i:]...)
+		default:
+			np = append(np[:i:i], np[i+1:]...)
+		}
+		m.SetPayload(np)
+	case "payload-append-nl":
+		m.SetPayload(append(append([]byte(nil), p.Payload...), []byte{'\n', ' ', '\t'}[p.Arg%3]))
 	case "payload-set":
 		np := []byte(fmt.Sprintf("other-%d", p.Arg))
 		if bytes.Equal(np, p.Payload) {
